@@ -148,11 +148,23 @@ func c17Stmt(k int, mode int, imm int64) Stmt {
 		return mkStmt("PUSH", mode, I(imm))
 	case 15:
 		return mkStmt("MOV", mode, R("ECX"), M(MemSpec{Base: "BX", Index: "SI"}))
+	case 17:
+		return mkStmt("NOT", mode, R("EAX"))
+	case 18:
+		return mkStmt("NOT", mode, R("CX"))
+	case 19:
+		return mkStmt("NOT", mode, M(MemSpec{Base: "EBX", SizeKw: "DWORD"}))
+	case 20:
+		st := mkStmt("SHL", mode, R("EBX"), I(4))
+		st.Want.Ops[1].Size = 8
+		return st
+	case 21:
+		return mkStmt("IN", mode, R("AX"), R("DX"))
 	}
 	return mkStmt("RET", mode)
 }
 
-const c17NStmts = 17
+const c17NStmts = 22
 
 // VC17Decode: a statement that follows a BITS directive — wherever the
 // directive stands — decodes, in that mode, to exactly the statement written,
